@@ -2,7 +2,7 @@
      t5 <cfg> <t0> <op> <op> ...
    and the observation is the transcript: for the initial state and after
    every step  <out>|H:<hosts sorted by key>|M:<MAC entries in slice order>|pt=<ok|panic>|inv=<0|1>
-   joined by ";".  The notification channel is drained (and ignored) after every step. *)
+   joined by ";", plus a final dump "end" (taken after the harness has overwritten its receive buffer).  The notification channel is drained (and ignored) after every step. *)
 From PV Require Import Base.Text Model.Tables Model.TablesShow Spec.HostTrackingInv.
 Open Scope string_scope.
 Open Scope N_scope.
@@ -13,9 +13,10 @@ Definition out3 (m s k : string) : string := m ++ TAB ++ s ++ TAB ++ k.
 Definition show_step5 (o : string) (s : state) : string :=
   o ++ "|" ++ show_tables s ++ "|pt=" ++ show_res (fun _ => "ok") (print_table s) ++ "|inv=" ++ b01 (invb s).
 
+(* after the last op the harness overwrites its receive buffer once more and dumps again: "end" *)
 Fixpoint run5 (c : cfg) (s : state) (ops : list pop) : list string :=
   match ops with
-  | [] => []
+  | [] => [show_step5 "end" s]
   | p :: r =>
       let (s1, o) := step c s (resolve s p) in
       let s2 := set_chan [] s1 in
